@@ -42,6 +42,10 @@ def run(ctx, replay):
     for i, c in enumerate(cases):
         c["rot"] = i * 7 + ctx.seed          # rendering choices (key order, extra position, top-level extra)
     traces, sums = vlib.drive_cases(ctx, "c15", cases, nchunks=8)
+    if not thorough:
+        t2, s2 = vlib.drive_cases(ctx, "c15", cases[::9], nchunks=8, extra=["-nest", "1"], tag="nest1")
+        traces += t2
+        sums += s2
     if thorough:
         t2, s2 = vlib.drive_cases(ctx, "c15", cases, nchunks=8, extra=["-nest", "1"], tag="nest1")
         t3, s3 = vlib.drive_cases(ctx, "c15", cases[::7], nchunks=8, extra=["-nest", "3"], tag="nest3")
